@@ -422,12 +422,23 @@ def _prefix_kind(case):
         return "?"
 
 
+def _verdict(case):
+    rec = run_case(case)
+    return (rec.get("verdict") or "") if rec["kind"] == "run" else ""
+
+
 def _null_prefix(case, obs):
-    return _prefix_kind(case) == "null"
+    """F10b: a set_value whose existing prefix ends at a null overwrites that null; what fails is that the
+    requested path does not resolve afterwards (an optional QUERY through a null yields the null and changes
+    nothing: a query that replaces the null is not this finding)"""
+    return _prefix_kind(case) == "null" and case[4] == "set" and _verdict(case).startswith("after the set the path")
 
 
 def _set_prefix(case, obs):
-    return _prefix_kind(case) == "set" and case[4] == "set"
+    """F25: set_value below a set replaces the whole set by the value"""
+    v = _verdict(case)
+    return _prefix_kind(case) == "set" and case[4] == "set" and (
+        v.startswith("after the set the path") or v.startswith("a pre-existing node was replaced"))
 
 
 FINDING_PREDS = {"null_in_prefix": _null_prefix, "set_member_created_by_set_value": _set_prefix}
@@ -442,6 +453,12 @@ CORPUS = [
     ("{a: null}", "a.b.c", "v", "DEFAULT", "set"),
     ("{a: [1]}", "a[2][1].k", 5, "INT", "query"),
     ("[]", "[0]", None, "DEFAULT", "set"),
+    ("{hosts: [{name: alpha}]}", "/hosts[3]/name", "delta", "DEFAULT", "set"),
+    ("{hosts: [{name: alpha}]}", "/hosts[3]/name", "delta", "DEFAULT", "query"),
+    ("[[1]]", "[0][2][1]", "v", "DEFAULT", "query"),
+    ("{a: null}", "a", "v", "DEFAULT", "query"),
+    ("{a: {b: null}}", "a.b", "v", "DEFAULT", "query"),
+    ("[{a: null}]", "[0].a", 5, "DEFAULT", "query"),
 ]
 
 
